@@ -316,7 +316,7 @@ func checkC12(r *Run) {
 			{"Reset", func(o *HdrObj, cfg *Cfg) { o.H.Reset(); o.PV.Reset() }},
 			{"Init", func(o *HdrObj, cfg *Cfg) { o.H.Reset(); o.PV.Init(sameVals(o.PV.Contacts.Vals, cfg)) }},
 		}}
-	listIn := strs([]string{"<sip:one@h>;expires=9, <sip:two@h>;q=0.5, <sip:b ad@h>, <sip:four@h>\r\nX", "<sip:a@b>;expires=5, \"q,\" <sip:c@d>;q=0.5, sip:e@f\r\nX", "*\r\nX", "<sip:1@h>,<sip:2@h>,<sip:3@h>,<sip:4@h>\r\nX", "\"open <sip:x>\r\nX", "n <sip:g@h>;tag=t;lr\r\nX"})
+	listIn := strs([]string{"<sip:a@h>;expires=3, <>, \"n\" <>;q=0.1, <sip:d@h>\r\nX", "<sip:one@h>;expires=9, <sip:two@h>;q=0.5, <sip:b ad@h>, <sip:four@h>\r\nX", "<sip:a@b>;expires=5, \"q,\" <sip:c@d>;q=0.5, sip:e@f\r\nX", "*\r\nX", "<sip:1@h>,<sip:2@h>,<sip:3@h>,<sip:4@h>\r\nX", "\"open <sip:x>\r\nX", "n <sip:g@h>;tag=t;lr\r\nX"})
 	var many []string
 	for i := 0; i < 36; i++ {
 		many = append(many, fmt.Sprintf("<sip:%d@h>;expires=%d", i, i+1))
